@@ -66,6 +66,11 @@ def programs(tier: str):
                                 "fail": fail,
                             }
     yield from _cancel_programs(tier)
+    # the decorator's defaults (limit 1, period 1 s): bare, called without arguments, one given
+    for form, limit in (("bare", 1), ("call", 1), ("limit-only", 2), ("limit-only", 1), ("period-only", 1)):
+        for n in (2, 3, 4):
+            for gaps in itertools.product(GAPS, repeat=n - 1):
+                yield {"gaps": list(gaps), "limit": limit, "dur": 0.5, "period": "float", "fail": None, "form": form}
     yield from _two_programs(tier)
     # two timers due at the same instant (an arrival and the wake-up of a delayed call) landing in
     # the same loop iteration: the arrival then runs between the sleeper's release of the lock and
@@ -223,7 +228,17 @@ def execute(program, ch: Chooser) -> Result:  # noqa: C901, PLR0912, PLR0915
             fn._limit = 99
             fn._period = 0.0
             fn._entries = None
-        fn = throttle(limit=limit, period=P if program["period"] == "float" else timedelta(seconds=P))(fn)
+        form = program.get("form")
+        if form == "bare":
+            fn = throttle(fn)  # defaults: one call per second
+        elif form == "call":
+            fn = throttle()(fn)
+        elif form == "limit-only":
+            fn = throttle(limit=limit)(fn)  # period defaults to one second
+        elif form == "period-only":
+            fn = throttle(period=P)(fn)  # limit defaults to one
+        else:
+            fn = throttle(limit=limit, period=P if program["period"] == "float" else timedelta(seconds=P))(fn)
         tasks: dict[int, asyncio.Task] = {}
 
         async def call(i):
